@@ -279,6 +279,23 @@ func (RollbackOrderMonitor) OnWrite(x *Ctx, w *Write) {
 	if sc.Traffic == "" || !requested(x.Mon, "rollback", "release3") || !isController(w.Actor) {
 		return
 	}
+	// only the release that was in flight when the user reverted / superseded it is being cancelled
+	cancelled := x.Mon["ctx.brAtCancel"]
+	if cancelled == "" || cancelled == "none" {
+		return
+	}
+	stillThere := false
+	for _, o := range x.W.Store.PeekAll("batchreleases") {
+		if string(accessor(o).GetUID()) == cancelled {
+			stillThere = true
+		}
+	}
+	if w.Key.GVR.Resource == "batchreleases" && w.Before != nil && string(accessor(w.Before).GetUID()) == cancelled {
+		stillThere = true
+	}
+	if !stillThere {
+		return
+	}
 	ts := ReadTraffic(x.W, sc)
 	if !ts.RoutesToCanary {
 		return
